@@ -140,6 +140,23 @@ def harness_json(script, cmd, payload, timeout=3600, env_extra=None):
             pass
 
 
+def solver_counterexample(obls, limit=2, timeout_ms=5000):
+    """for obligations the solver refuted (`sat`): its model of (path condition and not goal), as text, for the replay file"""
+    from z3 import Not, Solver, sat
+    out = []
+    for o in [o for o in obls if o.result == "sat" and o.pc is not None][:limit]:
+        try:
+            s = Solver()
+            s.set("timeout", timeout_ms)
+            s.add(*o.pc)
+            s.add(Not(o.goal))
+            if s.check() == sat:
+                out.append({"obligation": o.name, "model": str(s.model())[:4000]})
+        except Exception as e:       # noqa
+            out.append({"obligation": o.name, "model": "unavailable: %s" % e})
+    return out
+
+
 def write_replay(res, name, payload):
     os.makedirs(os.path.join(VERIF, "replays"), exist_ok=True)
     h = cache_key(name)[:10]
